@@ -581,9 +581,9 @@ def run(ctx: Ctx) -> None:
             for ent in trace:
                 if ent.get("hang"):
                     ctx.fail("wrapper-hang", {"kind": "fault", "spec": c08.spec_json(sp)}, "a wrapped docstring stage hung")
-                elif ent.get("raised") is not None and ent["op"] in ("d", "s", "t", "e"):
-                    # the entry points c01_render_run_total speaks about (extract_fields has a precondition; other
-                    # wrappers that C08's stream exercises are judged by C08's own model and oracle)
+                elif ent.get("raised") is not None and ent["op"] != "x":
+                    # all eleven wrapped entry points c01_render_run_total speaks about (e d s t y c g b r q);
+                    # extract_fields (x) has a precondition and is judged by C08's own oracle
                     ctx.count("wrapper-propagated")
                     ctx.fail("wrapper-propagates:" + type(ent["raised"]).__name__, {"kind": "fault", "spec": c08.spec_json(sp)},
                              f"epydoc2stan entry point {ent['op']} let {type(ent['raised']).__name__} out: {ent['raised']}")
